@@ -46,11 +46,15 @@ def parseOpts (s : String) : Option Opts :=
            sorter := if z == "z-" then none else natList? (z.drop 1).toString }
   | _ => none
 
+/-- `zones:eN:uN:aB[:d<address labels>]`. The optional address labels (which instances share an
+`Addr`) are part of the input only: instances are identified by their index everywhere. -/
 def parseSet (s : String) : Option SetD :=
-  match s.splitOn ":" with
+  match (s.splitOn ":").take 4 with
   | [zs, e, u, a] =>
     (natList? zs).map fun z => { zones := z, maxErr := natOf (e.drop 1).toString, maxUnz := natOf (u.drop 1).toString, za := a == "a1" }
   | _ => none
+
+def hasDupAddr (sets : String) : Bool := (sets.splitOn ":d").length > 1
 
 def parseSets (s : String) : Option (List SetD) := (s.splitOn "|").mapM parseSet
 
@@ -533,7 +537,7 @@ where
 def localStarts (sets : List SetD) (k : Nat) (l : List Nat) : List Nat :=
   l.filterMap fun g => let (k', i) := locate sets g; if k' == k then some i else none
 
-def tagsOf (o : Opts) (sets : List SetD) (script : String) (wins : List Win) : String :=
+def tagsOf (o : Opts) (sets : List SetD) (script : String) (wins : List Win) (dup : Bool := false) : String :=
   let n := (sets.map (·.zones.length)).foldl (· + ·) 0
   let s0 := sets.headD { zones := [], maxErr := 0, maxUnz := 0, za := false }
   let mode := if sets.any (fun s => s.za && s.maxErr > 0) then "invalid" else if isZoneMode s0 then "zone" else "flat"
@@ -551,7 +555,7 @@ def tagsOf (o : Opts) (sets : List SetD) (script : String) (wins : List Win) : S
     | none => 0
   let ticks := (wins.filter (·.act == "w")).length
   let triv := if retAt == "init" && !canc then " trivial" else ""
-  s!"k={o.kind} mode={mode} n={min n 6} sets={sets.length} min={o.min} hedge={o.hedge} term={o.term} sorter={o.sorter.isSome} ret={ret} fails={min nf 3} cancel={canc} late={min late 2} waits={min ticks 2}{triv}"
+  s!"k={o.kind} dupaddr={dup} mode={mode} n={min n 6} sets={sets.length} min={o.min} hedge={o.hedge} term={o.term} sorter={o.sorter.isSome} ret={ret} fails={min nf 3} cancel={canc} late={min late 2} waits={min ticks 2}{triv}"
 
 def handleQ (f : List String) : String × String × String :=
   match f with
@@ -566,7 +570,7 @@ def handleQ (f : List String) : String × String × String :=
         else wins0
       let j := judge o ss wins
       let js := if j.isEmpty then "-" else ",".intercalate j
-      let tags := tagsOf o ss script wins
+      let tags := tagsOf o ss script wins (hasDupAddr sets)
       match wins with
       | [] => ("empty-trace", js, tags)
       | w0 :: _ =>
